@@ -723,15 +723,15 @@ Section LoopPure.
   Let lcols := map (col_of li) (on_cmps on).
   Let rcols := map (col_of ri) (on_cmps on).
   Variables (lcat rcat : list centry).
-  Hypothesis HLC : catalog_of lcols L lcat.
-  Hypothesis HRC : catalog_of rcols R rcat.
+  Hypothesis HLC : catalog_inv lcols L lcat.
+  Hypothesis HRC : catalog_inv rcols R rcat.
 
   Lemma objL l : In l L -> is_objv l.
   Proof. intros H. destruct WF as [_ HL _ _ _ _ _ _ _]. destruct (HL l H) as [v ->]. exact I. Qed.
   Lemma objR r : In r R -> is_objv r.
   Proof. intros H. destruct WF as [_ _ HR _ _ _ _ _ _]. destruct (HR r H) as [v ->]. exact I. Qed.
 
-  Lemma cat_rows_in T cols cat e r : catalog_of cols T cat -> In e cat -> In r (crows e) -> In r T.
+  Lemma cat_rows_in T cols cat e r : catalog_inv cols T cat -> In e cat -> In r (crows e) -> In r T.
   Proof.
     intros [_ _ _ Hp] He Hr. eapply Permutation_in; [exact Hp|].
     apply in_concat. exists (crows e). split; [now apply in_map|exact Hr].
@@ -757,12 +757,12 @@ Section LoopPure.
   Qed.
 
   Lemma group_key_map T cols cat e r :
-    side_ok T cols -> catalog_of cols T cat -> In e cat -> In r (crows e) ->
+    side_ok T cols -> catalog_inv cols T cat -> In e cat -> In r (crows e) ->
     ckmap e = key_map cols (kvals cols r) /\ key_text (kvals cols r) = Ok (fst e).
   Proof.
-    intros Hs Hc He Hr.
-    destruct (catalog_key_map _ _ _ _ Hc He) as (r0 & Hr0 & Hk0).
-    destruct (catalog_row_key _ _ _ _ _ Hc He Hr) as (km & Hk).
+    intros Hs Hc He Hr. pose proof Hc as [[Hrk Hgk] _ _ _].
+    destruct (Hgk e He) as (r0 & Hr0 & Hk0).
+    destruct (Hrk e r He Hr) as (km & Hk).
     pose proof (cat_rows_in _ _ _ _ _ Hc He Hr) as HrT.
     pose proof (cat_rows_in _ _ _ _ _ Hc He Hr0) as Hr0T.
     destruct (row_key_ok _ _ _ Hs HrT) as (k & Hk' & Hkt). rewrite Hk in Hk'.
@@ -968,7 +968,7 @@ Qed.
 
 Lemma cat_find_in k c x : cat_find k c = Some x -> In (k, x) c.
 Proof.
-  unfold cat_find. destruct (find _ c) as [e|] eqn:E; [|discriminate]. intros [= <-].
+  unfold cat_find. destruct (find (fun e => String.eqb (fst e) k) c) as [e|] eqn:E; [|discriminate]. intros [= <-].
   apply find_some in E. destruct E as [Hin He]. apply String.eqb_eq in He. subst k.
   now destruct e.
 Qed.
@@ -988,8 +988,8 @@ Section HashPure.
   Let lcols := map (col_of li) (on_cmps on).
   Let rcols := map (col_of ri) (on_cmps on).
   Variables (lcat rcat : list centry).
-  Hypothesis HLC : catalog_of lcols L lcat.
-  Hypothesis HRC : catalog_of rcols R rcat.
+  Hypothesis HLC : catalog_inv lcols L lcat.
+  Hypothesis HRC : catalog_inv rcols R rcat.
 
   (* text keys agree <-> the pair satisfies every equality of ON *)
   Lemma holds_iff_texts l r : In l L -> In r R ->
@@ -1018,7 +1018,7 @@ Section HashPure.
       destruct (pair_read_ok li ri L R on WF l r pa Hl Hr Hpa) as [Ea _].
       destruct (pair_read_ok li ri L R on WF l r pb Hl Hr Hpb) as [Eb _].
       apply (proj2 (HF op pa pb l r _ _ Hc Hl Hr Ea Eb)).
-      pose proof (proj1 (map_ext_in_iff _ _ _) H (op, pa, pb) Hc) as Ht. cbn [col_of] in Ht.
+      pose proof H as Ht. rewrite map_ext_in_iff in Ht. specialize (Ht (op, pa, pb) Hc). cbn [col_of] in Ht.
       unfold fraw.
       destruct (wf_on_cmp _ _ _ _ _ _ Hs Hc) as [[H1 H2]|[H1 H2]].
       + rewrite H1, (hd_is_excl _ _ _ Hne H1) in *. rewrite (hd_is_excl _ _ _ (not_eq_sym Hne) H2).
@@ -1029,7 +1029,7 @@ Section HashPure.
   Lemma bm_is_key_eq le re : In le lcat -> In re rcat -> bm li on le re = String.eqb (fst le) (fst re).
   Proof.
     intros Hle Hre.
-    destruct HLC as [_ _ HneL _] eqn:E1. destruct HRC as [_ _ HneR _] eqn:E2. clear E1 E2.
+    pose proof HLC as [_ _ HneL _]. pose proof HRC as [_ _ HneR _].
     rewrite Forall_forall in HneL, HneR. pose proof (HneL le Hle) as H1. pose proof (HneR re Hre) as H2.
     destruct (crows le) as [|l ls] eqn:El; [congruence|]. destruct (crows re) as [|r rs] eqn:Er; [congruence|].
     assert (Hl : In l (crows le)) by (rewrite El; now left).
@@ -1055,11 +1055,11 @@ Section HashPure.
     unfold loopp.
     rewrite (flat_map_ext_in _ (fun re => if String.eqb (fst le) (fst re) then pairsp (crows le) (crows re) else []))
       by (intros re Hre; now rewrite bm_is_key_eq).
-    destruct HRC as [_ HndR HneR _] eqn:E2. clear E2.
+    pose proof HRC as [_ HndR HneR _].
     rewrite (flat_map_find (fst le) (pairsp (crows le)) rcat HndR).
     assert (Hlobj : forall l, In l (crows le) -> is_objv l).
     { intros l Hl. apply (objL li ri L R on WF). eapply cat_rows_in; eauto. }
-    destruct HLC as [_ _ HneL _] eqn:E1. clear E1. rewrite Forall_forall in HneL, HneR.
+    pose proof HLC as [_ _ HneL _]. rewrite Forall_forall in HneL, HneR.
     pose proof (HneL le Hle) as Hlne.
     destruct le as [k [lkeys lrows]]. cbn [hash_match fst crows snd] in *.
     destruct (cat_find k rcat) as [[rkeys rrows]|] eqn:Ef.
@@ -1084,11 +1084,11 @@ Definition join_core (use_hash inner : bool) (L R : list value) (li ri : string)
                                   else loop_match data inner ri on le rcat) lcat in
   Ok (List.concat batches).
 
-Definition is_inner (jt : jointype stmt) : bool := match jt with JInner => true | _ => false end.
-Definition uses_hash (st : jstrategy stmt) (on : expr stmt) : bool :=
+Definition is_inner (jt : jointype) : bool := match jt with JInner => true | _ => false end.
+Definition uses_hash (st : jstrategy) (on : expr stmt) : bool :=
   negb (is_straight st) && hash_join_analyze on.
 (* STRAIGHT_JOIN is only defined for inner joins *)
-Definition admissible (jt : jointype stmt) (st : jstrategy stmt) : bool :=
+Definition admissible (jt : jointype) (st : jstrategy) : bool :=
   negb (is_straight st && negb (is_inner jt)).
 
 Lemma exec_join_core jt st L R lid rid on data :
@@ -1139,24 +1139,319 @@ Section Core.
     exists lcat, rcat. auto.
   Qed.
 
-  (* nested loop against the specification *)
+  (* the drivers range over two Go maps: any order of the left keys and of the right keys *)
+  Definition run_batches (use_hash inner : bool) (lcat rcat : list centry) : res (list value) :=
+    let! batches := mapM (fun le => if use_hash then hash_match inner ri le rcat
+                                    else loop_match data inner ri on le rcat) lcat in
+    Ok (List.concat batches).
+
+  Lemma join_core_batches use_hash inner lcat rcat :
+    to_catalog L li ri on = Ok lcat -> to_catalog R ri li on = Ok rcat ->
+    join_core use_hash inner L R li ri on data = run_batches use_hash inner lcat rcat.
+  Proof. intros H1 H2. unfold join_core, run_batches. now rewrite H1, H2. Qed.
+
+  (* nested loop against the specification, whatever the iteration order of the two maps *)
+  Theorem loop_batches_eq_spec inner lcat rcat lcat' rcat' :
+    to_catalog L li ri on = Ok lcat -> to_catalog R ri li on = Ok rcat ->
+    Permutation lcat lcat' -> Permutation rcat rcat' ->
+    exists o1 o2, run_batches false inner lcat' rcat' = Ok o1 /\
+                  left_join data on (negb inner) ri L R = Ok o2 /\ Permutation o1 o2.
+  Proof.
+    intros H1 H2 P1 P2. destruct catalogs_ok as (lc & rc & H1' & H2' & H3 & H4).
+    rewrite H1 in H1'. rewrite H2 in H2'. injection H1' as <-. injection H2' as <-.
+    pose proof (catalog_inv_perm _ _ _ _ P1 (catalog_of_inv _ _ _ H3)) as H3'.
+    pose proof (catalog_inv_perm _ _ _ _ P2 (catalog_of_inv _ _ _ H4)) as H4'.
+    destruct (loop_core_spec li ri L R on data WF lcat' rcat' H3' H4' inner) as (out & Ho & Hs & Hp).
+    unfold run_batches. rewrite Ho. cbn [bind]. eauto.
+  Qed.
+
+  (* hash path against the nested loop: the same list, for the same iteration order *)
+  Theorem hash_batches_eq_loop inner lcat rcat lcat' rcat' :
+    hash_faithful li L R on -> hash_join_analyze on = true ->
+    to_catalog L li ri on = Ok lcat -> to_catalog R ri li on = Ok rcat ->
+    Permutation lcat lcat' -> Permutation rcat rcat' ->
+    run_batches true inner lcat' rcat' = run_batches false inner lcat' rcat'.
+  Proof.
+    intros HF HA H1 H2 P1 P2. destruct catalogs_ok as (lc & rc & H1' & H2' & H3 & H4).
+    rewrite H1 in H1'. rewrite H2 in H2'. injection H1' as <-. injection H2' as <-.
+    pose proof (catalog_inv_perm _ _ _ _ P1 (catalog_of_inv _ _ _ H3)) as H3'.
+    pose proof (catalog_inv_perm _ _ _ _ P2 (catalog_of_inv _ _ _ H4)) as H4'.
+    unfold run_batches.
+    rewrite (mapM_ext_in _ (fun le => loop_match data inner ri on le rcat')); [reflexivity|].
+    intros le Hle. now apply (hash_match_eq_loop li ri L R on data WF HF HA lcat' rcat' H3' H4').
+  Qed.
+
   Theorem loop_core_eq_spec inner :
     exists o1 o2, join_core false inner L R li ri on data = Ok o1 /\
                   left_join data on (negb inner) ri L R = Ok o2 /\ Permutation o1 o2.
   Proof.
-    destruct catalogs_ok as (lcat & rcat & H1 & H2 & H3 & H4).
-    destruct (loop_core_spec li ri L R on data WF lcat rcat H3 H4 inner) as (out & Ho & Hs & Hp).
-    unfold join_core. rewrite H1, H2. cbn [bind]. rewrite Ho. cbn [bind]. eauto.
+    destruct catalogs_ok as (lcat & rcat & H1 & H2 & _ & _).
+    rewrite (join_core_batches false inner lcat rcat H1 H2).
+    now apply (loop_batches_eq_spec inner lcat rcat lcat rcat).
   Qed.
 
-  (* hash path against the nested loop: the same list *)
   Theorem hash_core_eq_loop inner :
     hash_faithful li L R on -> hash_join_analyze on = true ->
     join_core true inner L R li ri on data = join_core false inner L R li ri on data.
   Proof.
-    intros HF HA. destruct catalogs_ok as (lcat & rcat & H1 & H2 & H3 & H4).
-    unfold join_core. rewrite H1, H2. cbn [bind].
-    rewrite (mapM_ext_in _ (fun le => loop_match data inner ri on le rcat)); [reflexivity|].
-    intros le Hle. now apply (hash_match_eq_loop li ri L R on data WF HF HA lcat rcat H3 H4).
+    intros HF HA. destruct catalogs_ok as (lcat & rcat & H1 & H2 & _ & _).
+    rewrite !(join_core_batches _ inner lcat rcat H1 H2).
+    now apply (hash_batches_eq_loop inner lcat rcat lcat rcat).
+  Qed.
+
+  (* Go map iteration order is irrelevant *)
+  Theorem map_order_independent use_hash inner lcat rcat lcat' rcat' :
+    (use_hash = true -> hash_faithful li L R on /\ hash_join_analyze on = true) ->
+    to_catalog L li ri on = Ok lcat -> to_catalog R ri li on = Ok rcat ->
+    Permutation lcat lcat' -> Permutation rcat rcat' ->
+    exists o1 o2, run_batches use_hash inner lcat' rcat' = Ok o1 /\
+                  left_join data on (negb inner) ri L R = Ok o2 /\ Permutation o1 o2.
+  Proof.
+    intros Hh H1 H2 P1 P2. destruct use_hash.
+    - destruct (Hh eq_refl) as [HF HA].
+      rewrite (hash_batches_eq_loop inner lcat rcat lcat' rcat' HF HA H1 H2 P1 P2).
+      now apply (loop_batches_eq_spec inner lcat rcat).
+    - now apply (loop_batches_eq_spec inner lcat rcat).
   Qed.
 End Core.
+
+(* ------------------------------------------------------------------ *)
+(* Part H: the theorems about Join.Exec                                 *)
+(* ------------------------------------------------------------------ *)
+
+Lemma hash_faithful_sym li ri L R on :
+  wf_join li ri L R on -> hash_faithful li L R on -> hash_faithful ri R L on.
+Proof.
+  intros WF HF op pa pb r l a b Hc Hr Hl H1 H2.
+  pose proof (wf_ne _ _ _ _ _ WF) as Hne. destruct WF as [_ _ _ Hs _ _ _ _ _].
+  destruct (cmp_cols_in _ _ _ _ Hc) as [Hpa Hpb].
+  rewrite (pair_read_sym li ri on l r pa Hne Hs Hpa) in H1.
+  rewrite (pair_read_sym li ri on l r pb Hne Hs Hpb) in H2.
+  eapply HF; eauto.
+Qed.
+
+Definition perm_ok (a b : res (list value)) : Prop :=
+  exists o1 o2, a = Ok o1 /\ b = Ok o2 /\ Permutation o1 o2.
+
+Theorem loop_eq_spec jt st L R lid rid on data :
+  wf_join lid rid L R on -> admissible jt st = true -> uses_hash st on = false ->
+  perm_ok (exec_join jt st L R lid rid on data) (join_spec jt L R lid rid on data).
+Proof.
+  intros WF Ha Hh. rewrite exec_join_core, Ha, Hh. unfold perm_ok. destruct jt; cbn [join_spec].
+  - apply (loop_core_eq_spec lid rid L R on data WF true).
+  - apply (loop_core_eq_spec lid rid L R on data WF false).
+  - apply (loop_core_eq_spec rid lid R L on data (wf_join_sym _ _ _ _ _ WF) false).
+Qed.
+
+Theorem hash_eq_loop jt st st' L R lid rid on data :
+  wf_join lid rid L R on -> hash_faithful lid L R on ->
+  admissible jt st = true -> admissible jt st' = true ->
+  uses_hash st on = true -> uses_hash st' on = false ->
+  exec_join jt st L R lid rid on data = exec_join jt st' L R lid rid on data.
+Proof.
+  intros WF HF Ha Ha' Hh Hh'. rewrite !exec_join_core, Ha, Ha', Hh, Hh'.
+  assert (HA : hash_join_analyze on = true) by (unfold uses_hash in Hh; now apply andb_prop in Hh).
+  destruct jt.
+  - now apply hash_core_eq_loop.
+  - now apply hash_core_eq_loop.
+  - apply hash_core_eq_loop; auto using wf_join_sym. now apply (hash_faithful_sym lid rid).
+Qed.
+
+Theorem hash_eq_spec jt st L R lid rid on data :
+  wf_join lid rid L R on -> hash_faithful lid L R on ->
+  admissible jt st = true -> uses_hash st on = true ->
+  perm_ok (exec_join jt st L R lid rid on data) (join_spec jt L R lid rid on data).
+Proof.
+  intros WF HF Ha Hh.
+  assert (HA : hash_join_analyze on = true) by (unfold uses_hash in Hh; now apply andb_prop in Hh).
+  rewrite exec_join_core, Ha, Hh. unfold perm_ok. destruct jt; cbn [join_spec].
+  - rewrite hash_core_eq_loop by assumption. apply (loop_core_eq_spec lid rid L R on data WF true).
+  - rewrite hash_core_eq_loop by assumption. apply (loop_core_eq_spec lid rid L R on data WF false).
+  - rewrite hash_core_eq_loop; auto using wf_join_sym; [|now apply (hash_faithful_sym lid rid)].
+    apply (loop_core_eq_spec rid lid R L on data (wf_join_sym _ _ _ _ _ WF) false).
+Qed.
+
+(* every admissible (type, strategy) combination returns the textbook multiset *)
+Theorem join_eq_spec jt st L R lid rid on data :
+  wf_join lid rid L R on -> (hash_join_analyze on = true -> hash_faithful lid L R on) ->
+  admissible jt st = true ->
+  perm_ok (exec_join jt st L R lid rid on data) (join_spec jt L R lid rid on data).
+Proof.
+  intros WF HF Ha. destruct (uses_hash st on) eqn:Hh.
+  - apply hash_eq_spec; auto. apply HF. unfold uses_hash in Hh. now apply andb_prop in Hh.
+  - now apply loop_eq_spec.
+Qed.
+
+Theorem strategy_independent jt st1 st2 L R lid rid on data :
+  wf_join lid rid L R on -> (hash_join_analyze on = true -> hash_faithful lid L R on) ->
+  admissible jt st1 = true -> admissible jt st2 = true ->
+  perm_ok (exec_join jt st1 L R lid rid on data) (exec_join jt st2 L R lid rid on data).
+Proof.
+  intros WF HF H1 H2.
+  destruct (join_eq_spec jt st1 L R lid rid on data WF HF H1) as (a & s & Ea & Es & P1).
+  destruct (join_eq_spec jt st2 L R lid rid on data WF HF H2) as (b & s' & Eb & Es' & P2).
+  rewrite Es in Es'. injection Es' as <-.
+  exists a, b. repeat split; auto. etransitivity; [exact P1|now symmetry].
+Qed.
+
+(* RIGHT is LEFT with the sides exchanged — for the engine (every strategy) and for the spec *)
+Theorem right_is_mirrored_left st L R lid rid on data :
+  exec_join JRight st L R lid rid on data = exec_join JLeft st R L rid lid on data /\
+  join_spec JRight L R lid rid on data = join_spec JLeft R L rid lid on data.
+Proof. split; [destruct st; reflexivity|reflexivity]. Qed.
+
+(* ---------- orientation and order of the ON conjuncts ---------- *)
+
+Definition flip_op (op : cmpop) : cmpop :=
+  match op with OpEq => OpEq | OpNe => OpNe | OpLt => OpGt | OpLe => OpGe | OpGt => OpLt | OpGe => OpLe end.
+
+Inductive on_equiv : expr stmt -> expr stmt -> Prop :=
+| oe_refl e : on_equiv e e
+| oe_flip op pa pb : on_equiv (ECmp op (ECol pa) (ECol pb)) (ECmp (flip_op op) (ECol pb) (ECol pa))
+| oe_and_comm a b : on_equiv (EAnd a b) (EAnd b a)
+| oe_or_comm a b : on_equiv (EOr a b) (EOr b a)
+| oe_and_assoc a b c : on_equiv (EAnd (EAnd a b) c) (EAnd a (EAnd b c))
+| oe_or_assoc a b c : on_equiv (EOr (EOr a b) c) (EOr a (EOr b c))
+| oe_and a a' b b' : on_equiv a a' -> on_equiv b b' -> on_equiv (EAnd a b) (EAnd a' b')
+| oe_or a a' b b' : on_equiv a a' -> on_equiv b b' -> on_equiv (EOr a b) (EOr a' b')
+| oe_sym e e' : on_equiv e e' -> on_equiv e' e
+| oe_trans e e' e'' : on_equiv e e' -> on_equiv e' e'' -> on_equiv e e''.
+
+(* the compared values are ordered antisymmetrically (string order always is; float order is,
+   except for NaN) *)
+Definition antisym_at (f : list string -> value) (e : expr stmt) : Prop :=
+  forall op pa pb, In (op, pa, pb) (on_cmps e) ->
+    exists z, vcompare (f pa) (f pb) = Ok z /\ vcompare (f pb) (f pa) = Ok (- z)%Z.
+
+Lemma cmp_holds_flip op z : cmp_holds (flip_op op) (- z) = cmp_holds op z.
+Proof. destruct op; cbn; lia. Qed.
+
+Lemma flip_op_invol op : flip_op (flip_op op) = op.
+Proof. now destruct op. Qed.
+
+Lemma on_sem_ok_or_err f e : antisym_at f e -> on_sem f e = Err \/ exists b, on_sem f e = Ok b.
+Proof.
+  induction e; cbn; auto; intros H.
+  - destruct IHe1 as [->|[x ->]]; [intros o pa pb Hin; apply (H o), in_or_app; auto|auto|].
+    destruct IHe2 as [->|[y ->]]; [intros o pa pb Hin; apply (H o), in_or_app; auto|auto|]. cbn. eauto.
+  - destruct IHe1 as [->|[x ->]]; [intros o pa pb Hin; apply (H o), in_or_app; auto|auto|].
+    destruct IHe2 as [->|[y ->]]; [intros o pa pb Hin; apply (H o), in_or_app; auto|auto|]. cbn. eauto.
+  - destruct e1; auto. destruct e2; auto. destruct (H op path path0) as (z & -> & _); cbn; eauto.
+Qed.
+
+Lemma antisym_app_l f a b : (forall op pa pb, In (op, pa, pb) (on_cmps a ++ on_cmps b) -> exists z, vcompare (f pa) (f pb) = Ok z /\ vcompare (f pb) (f pa) = Ok (- z)%Z) -> antisym_at f a.
+Proof. intros H o pa pb Hin. apply (H o), in_or_app. auto. Qed.
+Lemma antisym_app_r f a b : (forall op pa pb, In (op, pa, pb) (on_cmps a ++ on_cmps b) -> exists z, vcompare (f pa) (f pb) = Ok z /\ vcompare (f pb) (f pa) = Ok (- z)%Z) -> antisym_at f b.
+Proof. intros H o pa pb Hin. apply (H o), in_or_app. auto. Qed.
+Lemma antisym_app f a b : antisym_at f a -> antisym_at f b ->
+  (forall op pa pb, In (op, pa, pb) (on_cmps a ++ on_cmps b) -> exists z, vcompare (f pa) (f pb) = Ok z /\ vcompare (f pb) (f pa) = Ok (- z)%Z).
+Proof. intros Ha Hb o pa pb Hin. apply in_app_or in Hin. destruct Hin; [apply (Ha o)|apply (Hb o)]; auto. Qed.
+
+Lemma on_sem_equiv f e e' :
+  on_equiv e e' -> (antisym_at f e <-> antisym_at f e') /\ (antisym_at f e -> on_sem f e = on_sem f e').
+Proof.
+  induction 1 as [ e | op pa pb | a b | a b | a b c | a b c | a a' b b' Hab1 IH1 Hab2 IH2
+                 | a a' b b' Hab1 IH1 Hab2 IH2 | e e' He IH | e e' e'' He1 IH1 He2 IH2].
+  - tauto.
+  - split.
+    + unfold antisym_at; cbn. split; intros H o qa qb [[= <- <- <-]|[]].
+      * destruct (H op pa pb (or_introl eq_refl)) as (z & H1 & H2). exists (- z)%Z.
+        rewrite Z.opp_involutive. auto.
+      * destruct (H (flip_op op) pb pa (or_introl eq_refl)) as (z & H1 & H2). exists (- z)%Z.
+        rewrite Z.opp_involutive. auto.
+    + intros H. destruct (H op pa pb (or_introl eq_refl)) as (z & H1 & H2). cbn.
+      rewrite H1, H2. cbn. now rewrite cmp_holds_flip.
+  - split.
+    + unfold antisym_at; cbn. split; intros H o pa pb Hin; apply (H o); apply in_app_or in Hin;
+        apply in_or_app; tauto.
+    + intros H. cbn in H.
+      destruct (on_sem_ok_or_err f a (antisym_app_l f a b H)) as [Ea|[x Ea]];
+      destruct (on_sem_ok_or_err f b (antisym_app_r f a b H)) as [Eb|[y Eb]]; cbn; rewrite Ea, Eb; cbn;
+        try reflexivity. now rewrite andb_comm.
+  - split.
+    + unfold antisym_at; cbn. split; intros H o pa pb Hin; apply (H o); apply in_app_or in Hin;
+        apply in_or_app; tauto.
+    + intros H. cbn in H.
+      destruct (on_sem_ok_or_err f a (antisym_app_l f a b H)) as [Ea|[x Ea]];
+      destruct (on_sem_ok_or_err f b (antisym_app_r f a b H)) as [Eb|[y Eb]]; cbn; rewrite Ea, Eb; cbn;
+        try reflexivity. now rewrite orb_comm.
+  - split.
+    + unfold antisym_at; cbn. rewrite <- app_assoc. tauto.
+    + intros _. cbn. destruct (on_sem f a); cbn; auto. destruct (on_sem f b); cbn; auto.
+      destruct (on_sem f c); cbn; auto. now rewrite andb_assoc.
+  - split.
+    + unfold antisym_at; cbn. rewrite <- app_assoc. tauto.
+    + intros _. cbn. destruct (on_sem f a); cbn; auto. destruct (on_sem f b); cbn; auto.
+      destruct (on_sem f c); cbn; auto. now rewrite orb_assoc.
+  - destruct IH1 as [I1 E1]. destruct IH2 as [I2 E2]. split.
+    + split; intros H; unfold antisym_at; cbn [on_cmps].
+      * apply antisym_app; [apply I1, (antisym_app_l f a b H)|apply I2, (antisym_app_r f a b H)].
+      * apply antisym_app; [apply I1, (antisym_app_l f a' b' H)|apply I2, (antisym_app_r f a' b' H)].
+    + intros H. cbn in H |- *. rewrite (E1 (antisym_app_l f a b H)), (E2 (antisym_app_r f a b H)). reflexivity.
+  - destruct IH1 as [I1 E1]. destruct IH2 as [I2 E2]. split.
+    + split; intros H; unfold antisym_at; cbn [on_cmps].
+      * apply antisym_app; [apply I1, (antisym_app_l f a b H)|apply I2, (antisym_app_r f a b H)].
+      * apply antisym_app; [apply I1, (antisym_app_l f a' b' H)|apply I2, (antisym_app_r f a' b' H)].
+    + intros H. cbn in H |- *. rewrite (E1 (antisym_app_l f a b H)), (E2 (antisym_app_r f a b H)). reflexivity.
+  - destruct IH as [I E]. split; [tauto|]. intros H. symmetry. apply E. tauto.
+  - destruct IH1 as [I1 E1]. destruct IH2 as [I2 E2]. split; [tauto|].
+    intros H. rewrite (E1 H). apply E2. tauto.
+Qed.
+
+(* flip_ok: the values met by the comparisons of ON compare antisymmetrically *)
+Definition flip_ok (li : string) (L R : list value) (on : expr stmt) : Prop :=
+  forall op pa pb l r a b z, In (op, pa, pb) (on_cmps on) -> In l L -> In r R ->
+    pair_read li l r pa = Ok a -> pair_read li l r pb = Ok b ->
+    vcompare a b = Ok z -> vcompare b a = Ok (- z)%Z.
+
+Lemma gspec_ext rid R h h' outer l :
+  (forall r, In r R -> h l r = h' l r) -> gspec rid R h outer l = gspec rid R h' outer l.
+Proof. intros H. unfold gspec. now rewrite (filter_ext_in' (h l) (h' l) R H). Qed.
+
+Lemma left_join_on_equiv li ri L R on on' data outer :
+  wf_join li ri L R on -> wf_join li ri L R on' -> flip_ok li L R on -> on_equiv on on' ->
+  left_join data on outer ri L R = left_join data on' outer ri L R.
+Proof.
+  intros WF WF' HF He.
+  rewrite (left_join_pure data on ri L R (holdsp li on) (objL li ri L R on WF) (objR li ri L R on WF))
+    by (try apply incl_refl; intros l r Hl Hr; now apply (on_holds_pure li ri L R on data WF)).
+  rewrite (left_join_pure data on' ri L R (holdsp li on') (objL li ri L R on' WF') (objR li ri L R on' WF'))
+    by (try apply incl_refl; intros l r Hl Hr; now apply (on_holds_pure li ri L R on' data WF')).
+  f_equal. apply flat_map_ext_in. intros l Hl. apply gspec_ext. intros r Hr.
+  unfold holdsp. destruct (on_sem_equiv (fraw li l r) on on' He) as [_ ->]; [reflexivity|].
+  intros op pa pb Hc. destruct (cmp_cols_in _ _ _ _ Hc) as [Hpa Hpb].
+  destruct (pair_read_ok li ri L R on WF l r pa Hl Hr Hpa) as [Ea Fa].
+  destruct (pair_read_ok li ri L R on WF l r pb Hl Hr Hpb) as [Eb Fb].
+  assert (exists z, vcompare (fraw li l r pa) (fraw li l r pb) = Ok z) as [z Hz].
+  { destruct WF as [_ _ _ _ _ _ _ _ Hzs]. rewrite <- (Hzs op pa pb l r _ _ Hc Hl Hr Ea Eb).
+    now apply vcompare_printable. }
+  exists z. split; [exact Hz|]. eapply HF; eauto.
+Qed.
+
+Theorem on_symmetry jt st st' L R lid rid on on' data :
+  on_equiv on on' ->
+  wf_join lid rid L R on -> wf_join lid rid L R on' -> flip_ok lid L R on ->
+  (hash_join_analyze on = true -> hash_faithful lid L R on) ->
+  (hash_join_analyze on' = true -> hash_faithful lid L R on') ->
+  admissible jt st = true -> admissible jt st' = true ->
+  join_spec jt L R lid rid on data = join_spec jt L R lid rid on' data /\
+  perm_ok (exec_join jt st L R lid rid on data) (exec_join jt st' L R lid rid on' data).
+Proof.
+  intros He WF WF' Hflip HF HF' Ha Ha'.
+  assert (Hspec : join_spec jt L R lid rid on data = join_spec jt L R lid rid on' data).
+  { destruct jt; cbn [join_spec].
+    - now apply (left_join_on_equiv lid rid).
+    - now apply (left_join_on_equiv lid rid).
+    - apply (left_join_on_equiv rid lid); auto using wf_join_sym.
+      intros op pa pb r l a b z Hc Hr Hl H1 H2.
+      pose proof (wf_ne _ _ _ _ _ WF) as Hne. destruct WF as [_ _ _ Hs _ _ _ _ _].
+      destruct (cmp_cols_in _ _ _ _ Hc) as [Hpa Hpb].
+      rewrite (pair_read_sym lid rid on l r pa Hne Hs Hpa) in H1.
+      rewrite (pair_read_sym lid rid on l r pb Hne Hs Hpb) in H2.
+      eapply Hflip; eauto. }
+  split; [exact Hspec|].
+  destruct (join_eq_spec jt st L R lid rid on data WF HF Ha) as (a & s & Ea & Es & P1).
+  destruct (join_eq_spec jt st' L R lid rid on' data WF' HF' Ha') as (b & s' & Eb & Es' & P2).
+  rewrite Hspec, Es' in Es. injection Es as <-.
+  exists a, b. repeat split; auto. etransitivity; [exact P1|now symmetry].
+Qed.
